@@ -17,7 +17,7 @@ from vmon.libutil import monitored
 
 LEVEL = "exploration"
 SHARDS = {"quick": 16, "thorough": 16}
-MUST = ["create.contract_evaluations", "accessor.checks", "reframe.checks", "reject.checks", "word1.values", "word2.values"]
+MUST = ["accessor.order0", "accessor.order1", "accessor.order2", "create.contract_evaluations", "accessor.checks", "reframe.checks", "reject.checks", "word1.values", "word2.values"]
 RULE = ("create_ccsds_packet is called on enumerated field values; a postcondition compares the bytes with the "
         "model's bit-string layout (3+1+1+11+2+14+16 bits, length field = len(data)-1) and the harness compares "
         "every accessor, re-frames the packet through ccsds_generator (bytes and BytesIO) and checks rejection of "
@@ -86,15 +86,27 @@ def check_packet(ctx, vals, data, reframe=True):
     ctx.count("accessor.checks")
     if len(p) != 6 + len(data):
         ctx.violation("create/len", f"len {len(p)} != 6+{len(data)}", wit)
-    for name, _w in FIELDS:
-        got = getattr(p, name)
-        if got != vals[name] or type(got) is not int:
-            ctx.violation(f"accessor/{name}", f"{name} accessor -> {got!r}, given {vals[name]!r}", wit)
-    if p.data_length != len(data) - 1:
-        ctx.violation("accessor/data_length", f"data_length {p.data_length} != {len(data) - 1}", wit)
+    # the accessors are cached per object: every access ORDER must give the same answers. Three orders are driven
+    # on separate but identical objects: fields first, header_values first, fields in reverse order; each read twice.
+    want = tuple(vals[n] for n, _ in FIELDS) + (len(data) - 1,)
+    order = ctx.counters["accessor.checks"] % 3
+    ctx.count(f"accessor.order{order}")
+    names = [n for n, _ in FIELDS] + ["data_length"]
+    if order == 1:
+        hv = p.header_values
+        if tuple(hv) != want:
+            ctx.violation("accessor/header_values/read-first", f"header_values {hv}, expected {want}", wit)
+    seq = list(reversed(names)) if order == 2 else names
+    for rep in (0, 1):
+        for name in seq:
+            got = getattr(p, name)
+            exp = want[names.index(name)]
+            if got != exp or type(got) is not int:
+                ctx.violation(f"accessor/{name}/{('fields-first', 'after-header_values', 'reverse-order')[order]}",
+                              f"{name} accessor -> {got!r}, given {exp!r} (access order {order}, read {rep + 1})", wit)
     hv = p.header_values
-    if tuple(hv) != tuple(vals[n] for n, _ in FIELDS) + (len(data) - 1,):
-        ctx.violation("accessor/header_values", f"header_values {hv}", wit)
+    if tuple(hv) != want:
+        ctx.violation("accessor/header_values", f"header_values {hv}, expected {want}", wit)
     if bytes(p[6:]) != data:
         ctx.violation("create/data", "data field differs", wit)
     if reframe:
@@ -195,9 +207,10 @@ def run(ctx):
             hb = bits.to_bits(w1, 16) + bits.to_bits(w2, 16) + bits.to_bits(dl - 1, 16)
             exp = (bits.u(hb[0:3]), bits.u(hb[3:4]), bits.u(hb[4:5]), bits.u(hb[5:16]), bits.u(hb[16:18]),
                    bits.u(hb[18:32]), bits.u(hb[32:48]))
+            hv_first = tuple(p.header_values) if v % 2 else None     # half of the packets: header_values read first
             got = (p.version_number, p.type, p.secondary_header_flag, p.apid, p.sequence_flags, p.sequence_count,
                    p.data_length)
-            if got != exp or tuple(p.header_values) != exp:
+            if got != exp or tuple(p.header_values) != exp or (hv_first is not None and hv_first != exp):
                 ctx.violation(f"framed-accessor/word{word}", f"accessors {got} != layout fields {exp} for header {bytes(p[:6]).hex()}",
                               {"header": bytes(p[:6]), "got": got, "expected": exp})
             if bytes(p[6:]) != d:
